@@ -296,21 +296,45 @@ Theorem C20_text_model_passes_oracle :
 Proof. exact tt_model_passes. Qed.
 Print Assumptions C20_text_model_passes_oracle.
 
-(** what is NOT true of the Graphviz text: the label of a node statement,
-    label=<...>, holds the raw name; read by the nesting rule of Graphviz'
-    scanner the name > ends it early and the name < never ends it.  True
-    only for names without angle brackets. *)
-Theorem C20_dot_label_stays_inside_refuted : ~ dot_label_stays_inside.
-Proof. exact dot_label_stays_inside_refuted. Qed.
-Print Assumptions C20_dot_label_stays_inside_refuted.
+(** the label of a node statement, label=<...>, holds the name escaped by
+    dotHTML (ampersand and angle brackets as entities).  Read by the nesting
+    rule of Graphviz' scanner it ends exactly at the bracket Dot writes
+    behind it, for every name and whatever follows, also with a doc string;
+    and it reads back as the name *)
+Theorem C20_dot_label_stays_inside :
+  forall name rest : string, html_scan 1 (dot_label_name name ++ String rangle rest) = Some rest.
+Proof. exact dot_label_stays_inside_holds. Qed.
+Print Assumptions C20_dot_label_stays_inside.
 
-Theorem C20_dot_label_plain_stays_inside :
-  forall (name rest : string) (d : nat),
-  has_char langle name = false -> has_char rangle name = false ->
-  html_scan (S d) (dot_label_name name ++ String rangle rest) =
-  match d with O => Some rest | S d' => html_scan (S d') rest end.
-Proof. exact dot_label_stays_inside_plain. Qed.
-Print Assumptions C20_dot_label_plain_stays_inside.
+Theorem C20_dot_node_label_stays_inside :
+  forall name doc rest : string, html_scan 1 (dot_node_label name doc ++ String rangle rest) = Some rest.
+Proof. exact dot_node_label_stays_inside. Qed.
+Print Assumptions C20_dot_node_label_stays_inside.
+
+Theorem C20_dot_label_readable_back :
+  (forall name : string, html_unescape (dot_label_name name) = Some name) /\
+  (forall a b : string, dot_label_name a = dot_label_name b -> a = b).
+Proof. exact (conj dot_label_readable_back dot_label_name_injective). Qed.
+Print Assumptions C20_dot_label_readable_back.
+
+Theorem C20_text_label_oracle :
+  (forall name label : string,
+     tt_ok (mk_ttlabel name label) = true ->
+     html_scan 1 (label ++ String rangle EmptyString) = Some EmptyString /\ html_unescape label = Some name) /\
+  (forall name : string,
+     tt_ok (mk_ttlabel name (dot_label_name name)) = true /\
+     tt_agrees (mk_ttlabel name (dot_label_name name)) = true /\
+     tt_ok (mk_ttdoc name (dot_html name)) = true /\
+     tt_agrees (mk_ttdoc name (dot_html name)) = true).
+Proof. exact (conj tt_label_ok_sound tt_model_label_passes). Qed.
+Print Assumptions C20_text_label_oracle.
+
+(** D55, the code before the repair: the label held the raw name; the name >
+    ended it early and the name < never ended it *)
+Theorem C20_dot_raw_label_refuted :
+  ~ (forall name rest : string, html_scan 1 (dot_label_raw name ++ String rangle rest) = Some rest).
+Proof. exact dot_raw_label_stays_inside_refuted. Qed.
+Print Assumptions C20_dot_raw_label_refuted.
 
 (** non-vacuity: a name with a quote, two backslashes before a quote, a
     hash, a newline, a tab, a closing angle bracket, two bytes >= 128 (UTF-8
@@ -326,6 +350,12 @@ Example C20_text_demo :
     ("a#quot;" ++ sb [92; 92]%Z ++ "#quot;#35;" ++ sb [10; 9; 62; 195; 169; 92]%Z)%string /\
   mermaid_untext (mermaid_text nasty_name) = Some nasty_name /\
   mermaid_nid 120 = "n120"%string /\
+  dot_label_name nasty_name =
+    (sb [97; 34; 92; 92; 34; 35; 10; 9]%Z ++ "&gt;" ++ sb [195; 169; 92]%Z)%string /\
+  html_scan 1 (dot_label_name nasty_name ++ "> ]")%string = Some " ]"%string /\
+  html_unescape (dot_label_name nasty_name) = Some nasty_name /\
+  (* before the repair the label ended at the bracket inside the name *)
+  html_scan 1 (dot_label_raw nasty_name ++ "> ]")%string = Some (sb [195; 169; 92]%Z ++ "> ]")%string /\
   (* an unescaped rendering would break: the raw name between quotes is not one quoted string *)
   dot_quoted_ok (String dquote (nasty_name ++ String dquote EmptyString)) = false /\
   (* and two different names would collapse if backslashes were not escaped *)
